@@ -61,7 +61,11 @@ fn gen_plan(rng: &mut Rng, pool: &Pool) -> Plan {
     for _ in 0..n {
         let target = if !subset.is_empty() && rng.chance(3, 4) { *rng.pick(&subset) } else { rng.below(pool.targets.len() as u64) as usize };
         let kinds = kinds_of(pool.targets[target].fam);
-        let kind = *rng.pick(kinds);
+        let mut kind = *rng.pick(kinds);
+        if kind == Kind::FakeTimes && !HAVE_CCV {
+            // without access to the counter the history cannot arrange the number of calls a counted fake still needs
+            kind = Kind::FakeMacro;
+        }
         steps.push(Step { target, kind, variant: rng.below(64) as usize, budget: rng.below(4) as usize });
     }
     let panic_at = rng.below(n as u64 + 1) as usize;
